@@ -1,4 +1,3 @@
 package main
 
 func modeChains(L, shard, shards int) {}
-func modeIter(n int, seed int64)      {}
